@@ -692,6 +692,7 @@ pub struct VerifAssembler(Assembler);
 
 #[cfg(feature = "verif-hooks")]
 impl VerifAssembler {
+    /// An empty buffer in ordered mode
     pub fn new() -> Self {
         Self(Assembler::new())
     }
@@ -703,9 +704,11 @@ impl VerifAssembler {
     pub fn ensure_ordering(&mut self, ordered: bool) -> bool {
         self.0.ensure_ordering(ordered).is_ok()
     }
+    /// The next chunk of at most `max_length` bytes, if any
     pub fn read(&mut self, max_length: usize, ordered: bool) -> Option<Chunk> {
         self.0.read(max_length, ordered)
     }
+    /// Number of bytes handed out by ordered reads
     pub fn bytes_read(&self) -> u64 {
         self.0.bytes_read()
     }
